@@ -1,6 +1,11 @@
 HOOK_COMMITS = []
 NOT_APPLICABLE = {}
 TEXTS = {
+ "C01": {
+  "technique": "stateful model-based property-based testing (rapid): generated driver-API histories checked call by call against an independent sequential reference model",
+  "level_text": "Model-based generated search: histories of 10-40 driver calls of every kind, each call's result and the full contents of every collection compared with an independently written sequential model of MongoDB's semantics after every call; calls outside the model's declared domain resynchronise the model and are counted. Thousands (quick) to hundreds of thousands (thorough) of histories; sampling, not proof.",
+  "level_note": "Trusts the reference model (harness/ref) inside the core domains of DESIGN.md section 8; generated ObjectIDs, error messages, the field order of projected results and the position of $rename targets are not compared.",
+ },
  "C02": {
   "technique": "stateful property-based testing (rapid): generated API histories with failing writes; byte-level state-dump invariant and an item-by-item differential against a second engine",
   "level_text": "Generated call histories biased towards writes that fail at the k-th matched document or k-th batch item, with a reference-free oracle over the complete exported state (documents, indexes and their order, change log): failing single calls change nothing, batches equal the one-by-one application of their succeeding items. Thousands (quick) to hundreds of thousands (thorough) of histories; sampling, not proof.",
